@@ -29,11 +29,16 @@ type evictOpts struct {
 	fixedPreemptibleVictims bool               // victims are preemptible (else explored)
 	fixedPending            bool               // the pending job is preemptible (else explored)
 	leafQuota               map[string]float64 // concrete deserved quota of these leaf queues (else symbolic)
+	morePending             int                // further pending jobs p1.. in the pending job's queue (or otherPendingQ)
+	otherPendingQ           string
+	fixedCpu                float64 // with sameCpu: the shared request is this concrete value
+	signatures              bool // scheduling signatures on (failed jobs' shape prunes later identical ones)
 }
 
 type evictWorld struct {
 	*actWorld
 	pending *actJob
+	others  []*actJob // further pending jobs
 	victims []*actJob
 	pre     map[string]float64 // allocation of every queue before the action
 	o       evictOpts
@@ -73,7 +78,9 @@ func actEvictWorld(o evictOpts) *evictWorld {
 		}
 	}
 	var shared float64
-	if o.sameCpu {
+	if o.sameCpu && o.fixedCpu > 0 {
+		shared = o.fixedCpu
+	} else if o.sameCpu {
 		shared = nat("cpu")
 		vr.Assume(shared >= 10)
 	}
@@ -129,7 +136,16 @@ func actEvictWorld(o evictOpts) *evictWorld {
 		pp = vr.AnyBool(pname + ".preemptible")
 	}
 	ew.pending = w.addJob(pname, o.pendingQ, pp, prioOf(pname), 100, 1, []float64{cpuOf(pname)}, []pod_status.PodStatus{pod_status.Pending}, []string{""})
+	for i := 0; i < o.morePending; i++ {
+		n := vs.Name("p", i+1)
+		pq := o.pendingQ
+		if o.otherPendingQ != "" {
+			pq = o.otherPendingQ
+		}
+		ew.others = append(ew.others, w.addJob(n, pq, pp, prioOf(n), int64(101+i), 1, []float64{cpuOf(n)}, []pod_status.PodStatus{pod_status.Pending}, []string{""}))
+	}
 	w.open()
+	w.ssn.SchedulerParams.UseSchedulingSignatures = o.signatures
 	for _, q := range w.queues {
 		ew.pre[q.name] = w.queueAllocated(q.name, false)
 	}
@@ -206,7 +222,6 @@ func (w *evictWorld) observe() {
 	vr.Observe("evicts", len(w.cache.evicts))
 	vr.Observe("pendingPlaced", w.placed(w.pending))
 	vr.Cover(len(w.cache.evicts) > 0, "cover.action-evicts")
-	vr.Cover(len(w.cache.evicts) == 0, "cover.action-does-not-evict")
 }
 
 // assertVictimsEligible (C06): only eligible victims, and only together with the placement they
@@ -268,8 +283,10 @@ func (w *evictWorld) postAlloc(q string) float64 {
 			a -= c
 		}
 	}
-	if w.placed(w.pending) && (w.pending.queue == q || w.queueOf(w.pending.queue).parent == q) {
-		a += w.pending.cpu[0]
+	for _, p := range append([]*actJob{w.pending}, w.others...) {
+		if w.placed(p) && (p.queue == q || w.queueOf(p.queue).parent == q) {
+			a += p.cpu[0]
+		}
 	}
 	return a
 }
@@ -306,12 +323,17 @@ func (w *evictWorld) assertReclaimFair() {
 		vr.Assert((des >= 0 && final+largest > des) || final+largest > fs(l), "C07.reclaim-action-takes-only-from-queues-above-quota-or-fair-share")
 	}
 	// (b) the reclaiming queue stays within its fair share (or deserved quota) after receiving the resources
-	for q := w.pending.queue; q != ""; q = w.queueOf(q).parent {
-		des := w.queueOf(q).deserved
-		vr.Assert(w.postAlloc(q) <= fs(q) || des < 0 || w.postAlloc(q) <= des, "C07.reclaim-action-keeps-reclaimer-within-fair-share")
-		if !w.pending.preempt && des >= 0 {
-			np := w.pending.cpu[0] // the reclaimer's queues hold no other workload in this world
-			vr.Assert(np <= des, "C07.reclaim-action-keeps-non-preemptible-reclaimer-within-quota")
+	for _, p := range append([]*actJob{w.pending}, w.others...) {
+		if !w.placed(p) {
+			continue
+		}
+		for q := p.queue; q != ""; q = w.queueOf(q).parent {
+			des := w.queueOf(q).deserved
+			vr.Assert(w.postAlloc(q) <= fs(q) || des < 0 || w.postAlloc(q) <= des, "C07.reclaim-action-keeps-reclaimer-within-fair-share")
+			if !p.preempt && des >= 0 && len(w.others) == 0 {
+				np := p.cpu[0] // the reclaimer's queues hold no other workload in this world
+				vr.Assert(np <= des, "C07.reclaim-action-keeps-non-preemptible-reclaimer-within-quota")
+			}
 		}
 	}
 }
@@ -368,4 +390,38 @@ func VerifC05_ReclaimProgressAcrossDepartments() {
 	if cpu <= des("qa") && cpu <= des("d1") && w.pre["qc"] > des("qc") && w.pre["d2"] > des("d2") {
 		vr.Assert(len(w.cache.evicts) >= 1 && w.placed(w.pending), "C05.in-quota-job-reclaims-from-over-quota-queue-of-another-department")
 	}
+}
+
+// VerifC05_PreemptProgressManyJobs: two pending jobs of identical shape and two lower-priority
+// running victims, with scheduling signatures on (a job that failed to preempt prunes later jobs of
+// the same shape - a job that succeeded must not).
+// BOUND: 1 full node; queue qa; two running preemptible pods, two pending pods, one shared symbolic cpu request; symbolic int32 priorities; signatures explored on/off
+func VerifC05_PreemptProgressManyJobs() {
+	w := actEvictWorld(evictOpts{bits: 6, nVictims: 2, victimQ: []string{"qa"}, pendingQ: "qa", sameCpu: true, symPrio: true, fixedPreemptibleVictims: true, fixedPending: true,
+		morePending: 1, signatures: vr.AnyBool("useSchedulingSignatures")})
+	preempt.New().Execute(w.ssn)
+	w.observe()
+	all := true
+	for _, v := range w.victims {
+		for _, p := range append([]*actJob{w.pending}, w.others...) {
+			if !(v.priority < p.priority) {
+				all = false
+			}
+		}
+	}
+	if all {
+		vr.Assert(len(w.cache.evicts) == 2 && w.placed(w.pending) && w.placed(w.others[0]), "C05.every-job-preempts-a-lower-priority-workload-within-the-cycle")
+	}
+}
+
+// VerifC07_TwoReclaimersOneCycle: two pending jobs in different queues reclaim in the same cycle
+// from one over-quota queue; the second decision must see what the first one took.
+// BOUND: 1 full node; d <- qa, qb, qc; three running preemptible pods in qb, one pending pod in qa and one in qc, every pod requests 16 milli-cpu; deserved quota of qb and the fair shares symbolic (qa, qc deserve 16)
+func VerifC07_TwoReclaimersOneCycle() {
+	w := actEvictWorld(evictOpts{bits: 6, nVictims: 3, victimQ: []string{"qb"}, pendingQ: "qa", sameCpu: true, fixedPreemptibleVictims: true, fixedPending: true,
+		morePending: 1, otherPendingQ: "qc", leafQuota: map[string]float64{"qa": 16, "qc": 16}, fixedCpu: 16})
+	reclaim.New().Execute(w.ssn)
+	w.observe()
+	vr.Cover(len(w.cache.evicts) == 2, "C07.cover.two-reclaims-in-one-cycle")
+	w.assertReclaimFair()
 }
